@@ -18,6 +18,7 @@
                           unscheduled for ever
     No proofs in this file. *)
 From Coq Require Import List ZArith Bool NArith Lia.
+From Coq Require String.
 From V Require Import lib.Verdict.
 Import ListNotations.
 Open Scope Z_scope.
@@ -289,3 +290,45 @@ Definition check_case (c : case) : verdict :=
     | 2%N => if (m old2 || m old12) && spec_trace fixed then VKnown 2 else VSpecFail
     | _ => VSpecFail
     end.
+
+(** ---------- atomic-section skeletons ---------- *)
+(** The transition system above treats each handler method as ONE step (its body runs under ph.mu)
+    and [stop] as "cancel the context, then clear the timer under the lock".  That is justified only
+    while the methods have the shape recorded here: the order of context cancellation, lock
+    operations, tests and timer operations, extracted from peering/peering.go by the harness
+    (go/ast) on every run.  A different skeleton means the model's steps are no longer the code's
+    atomic sections: reported as a broken correspondence. *)
+Import String.StringSyntax.
+Open Scope string_scope.
+Definition expected_skeleton (name : String.string) : option String.string :=
+  if String.eqb name "stop" then Some "cancel lock defer-unlock if[timer-set]{tstop tnil}"
+  else if String.eqb name "stopIfConnected" then Some "lock defer-unlock if[timer-set&connected]{tstop tnil dinit}"
+  else if String.eqb name "startIfDisconnected" then Some "lock defer-unlock if[ctx]{return} if[timer-nil&disconnected]{tarm}"
+  else if String.eqb name "reconnect" then
+    Some "connect if[err]{} lock defer-unlock if[timer-nil]{return} if[connected]{tstop tnil dinit}else{treset}"
+  else None.
+(** the shapes of the code before the repairs (so that a regression is still classified) *)
+Definition old_skeleton (name : String.string) : option String.string :=
+  if String.eqb name "startIfDisconnected" then Some "lock defer-unlock if[timer-nil&disconnected]{tarm}"
+  else if String.eqb name "reconnect" then
+    Some "connect if[err]{lock if[timer-set]{treset} unlock} call-stopIfConnected"
+  else None.
+Close Scope string_scope.
+
+Inductive tcase :=
+| TRun (c : case)
+| TSkel (name skel : String.string).
+
+Definition check_tcase (t : tcase) : verdict :=
+  match t with
+  | TRun c => check_case c
+  | TSkel name skel =>
+      match expected_skeleton name with
+      | Some e => if String.eqb e skel then VOk
+                  else match old_skeleton name with
+                       | Some o => if String.eqb o skel then VOk else VModelMismatch
+                       | None => VModelMismatch
+                       end
+      | None => VModelMismatch
+      end
+  end.
